@@ -18,6 +18,13 @@ def step (op res : String) : List String :=
   if res == "unparsable" then ["br:l2.unparsable"] else
   if res.startsWith "skip" then ["br:l2.skip", s!"DIVERGE drift l2frame engine could not run: {res}"] else
   match (res.splitOn " ; ").map words with
+  | [[_first], out] =>
+    -- `l2after` (harness/l2frame.go): after a link-level send that failed, a plain DISCOVER (no relay, no ciaddr, broadcast
+    -- flag clear) is still answered by a link-level unicast to the offered address on the client port (C15's last clause;
+    -- `C15.expected` of Spec/Dispatch.lean for such a request): a listener or the process may not remember the failure
+    if out == ["00000000", "68", "1"] then ["br:l2.after-failed-send"]
+    else ["br:l2.after-failed-send", "DIVERGE dom model=send 00000000 68 l2",
+          s!"FAIL C15 after a failed link-level send, the reply to a plain DISCOVER goes to {" ".intercalate out} (address port link-level), not to the offered address on port 68 at link level"]
   | [["args", ifi, ifmac, ch, si, yi, wire], out] =>
     match ifi.toNat?, parseHex ifmac, parseHex ch, ip4 si, ip4 yi, parseHex wire with
     | some ifi, some ifmac, some ch, some si, some yi, some wire =>
